@@ -14,6 +14,7 @@ import (
 	"os"
 	"os/exec"
 	"path/filepath"
+	"regexp"
 	"sort"
 	"strconv"
 	"strings"
@@ -230,9 +231,9 @@ func c10BufferScripts(c *Ctx) error {
 			}
 		}
 		// build the script
-		var ops []string     // model ops
-		var real []string    // real ops: "p3", "s", "A" (attributes)
-		cursor := 0          // logical position
+		var ops []string  // model ops
+		var real []string // real ops: "p3", "s", "A" (attributes)
+		cursor := 0       // logical position
 		nops := 1 + r.Intn(50)
 		nontriv := false
 		attrNames := [][]string{{"id", "class"}, {"style"}, {"href", "d", "x", "id"}, {"nope"}}
@@ -564,7 +565,16 @@ func trunc(b []byte, n int) []byte {
 	return b
 }
 
+var c10EntityRunRe = regexp.MustCompile(`^(&[#A-Za-z0-9]+;)+$`)
+var c10VarRunRe = regexp.MustCompile(`^var [a-z]+;$`)
+var c10OpenKnown = map[string]bool{}
+
 func c10Sweep(c *Ctx) error {
+	for _, k := range h.Known("C10") {
+		if k.Status == "open" {
+			c10OpenKnown[k.ID] = true
+		}
+	}
 	st := c.R.StartStage("totality-sweep", "all six minifiers (default and non-default options, precisions -1..30) and exported helpers (Number, Decimal, Mediatype, DataURI, svg ShortenPathData via documents) on corpus documents and byte-level mutations / splices / truncations / non-UTF-8 insertions, under recover with a 30 s timeout per call and a time bound of 5 s + 2 ms/byte; deep nesting (200 000 levels of every bracket kind) in a subprocess; non-trivial = mutated input")
 	corpus := c10Corpus(c.Repo, 200000)
 	var pool [][]byte
@@ -735,7 +745,13 @@ func c10Sweep(c *Ctx) error {
 				worst = tL > 8*tS+150*time.Millisecond
 			}
 			st.Tag("long-run-growth-measured")
-			if worst {
+			if worst && mt != "application/javascript" && c10EntityRunRe.MatchString(unit) && c10OpenKnown["K-C10-1"] {
+				c.R.ExcludedKnown++ // K-C10-1: quadratic entity replacement in the dependency
+				st.Tag("known:K-C10-1")
+			} else if worst && mt == "application/javascript" && c10VarRunRe.MatchString(unit) && c10OpenKnown["K-C10-2"] {
+				c.R.ExcludedKnown++ // K-C10-2: emptied statements are deleted one by one
+				st.Tag("known:K-C10-2")
+			} else if worst {
 				c.R.Add(h.Finding{Stage: st.Name, Kind: "fail", What: fmt.Sprintf("running time grows faster than linearly on a long flat run: %v for %d bytes but %v for %d bytes", tS, len(small), tL, len(doc)), Input: key})
 			}
 		}
@@ -773,6 +789,22 @@ func c10Sweep(c *Ctx) error {
 		runL("application/json", "[", u, "")
 	}
 	c.R.Note("long flat runs: %d documents of about %d bytes", long, size)
+	// replay of the open known finding K-C10-1 at a size where the growth is unmistakable
+	for _, k := range h.Known("C10") {
+		if k.Status != "open" || k.Replay["unit"] == nil {
+			continue
+		}
+		unit := k.ReplayStr("unit")
+		nS, nL := int(k.Replay["small_bytes"].(float64)), int(k.Replay["large_bytes"].(float64))
+		still := true
+		var tS, tL time.Duration
+		for try := 0; try < 3 && still; try++ {
+			tS, _ = timeL(k.ReplayStr("mediatype"), strings.Repeat(unit, nS/len(unit)))
+			tL, _ = timeL(k.ReplayStr("mediatype"), strings.Repeat(unit, nL/len(unit)))
+			still = tL > 8*tS+150*time.Millisecond
+		}
+		c.R.AddKnown(k.ID, still, k.What, fmt.Sprintf("%v for %d bytes, %v for %d bytes", tS, nS, tL, nL))
+	}
 
 	// deep nesting in a subprocess
 	dir, err := os.MkdirTemp("", "verif-c10-")
